@@ -342,3 +342,52 @@ Definition normalize (wf : workflow) : workflow :=
 (* both outputs of every node, in node order: what the harness observes *)
 Definition outs2 (l : list val) : list val := flat_map (fun v => [outsel 0 v; outsel 1 v]) l.
 Definition model_run2 (wf : workflow) : option (list val) := option_map outs2 (model_run (normalize wf)).
+
+(* ---------- third pass: a node whose splitter pairs its two upstream states explicitly, ("_A", "_B") ----------
+   _connect_splitters: a tuple of "_X" names is the prev-state part as given (a tuple skips _remove_repeated /
+   _add_state_history); State.splits zips the two final index lists ("." : equal shape (len,) or ValueError);
+   prepare_inputs zips the two index ranges.  The pairing flag lives beside the node (workflow3), so everything
+   above is untouched.  Differential only: no theorem speaks about pair nodes. *)
+Definition workflow3 := list (node * bool).
+Definition zip2 (a b : list (list nat)) : list (list nat) := map (fun p => fst p ++ snd p) (combine a b).
+
+Definition build_pair (wf : workflow) (tab : list mnode) (n : nat) (nd : node) : option mnode :=
+  match upstream tab (n_fields nd) with
+  | [(xa, fla); (xb, flb)] =>
+      let cur := map (fun f => (n, f)) (n_split nd) in
+      if negb (zip_ok_node nd) then None
+      else if negb (Nat.eqb (List.length (ent_indf tab xa)) (List.length (ent_indf tab xb))) then None   (* ValueError: shapes *)
+      else if negb (is_nil (n_comb nd)) then None                                                        (* not modelled *)
+      else
+      let keys := ent_keysf tab xa ++ ent_keysf tab xb ++ cur in
+      let curbox := box_idx (map (key_len wf) cur) in
+      let ind := prod2 (zip2 (ent_indf tab xa) (ent_indf tab xb)) curbox in
+      let sind := map (mkdict keys) ind in
+      let other := [(xa, fla); (xb, flb)] in
+      let ip := map (fun i => repeat i (List.length fla) ++ repeat i (List.length flb)) (seq 0 (ent_nfinal tab xa)) in
+      let inputs_ind := map (mkdict (keys_prev n other [xa; xb] ++ cur)) (prod2 ip curbox) in
+      match all_some (map (job_of wf tab n nd) (combine inputs_ind sind)) with
+      | None => None
+      | Some jobs =>
+          Some (MState {| m_other := other; m_prev := [xa; xb]; m_cur := cur; m_comb := []; m_rpnf := keys;
+                          m_keys := keys; m_sind := sind; m_keysf := keys; m_indf := ind; m_sindf := sind;
+                          m_jobs := jobs |})
+      end
+  | _ => None                                                                                            (* not modelled *)
+  end.
+
+Fixpoint run_from3 (wf : workflow) (tab : list mnode) (nodes : workflow3) : option (list mnode) :=
+  match nodes with
+  | [] => Some tab
+  | (nd, pr) :: r =>
+      match (if pr then build_pair wf tab (List.length tab) nd else step wf tab (List.length tab) nd) with
+      | Some e => run_from3 wf (tab ++ [e]) r
+      | None => None
+      end
+  end.
+Definition model_run3 (w3 : workflow3) : option (list val) :=
+  let wf := normalize (map fst w3) in
+  match run_from3 wf [] (combine wf (map snd w3)) with
+  | None => None
+  | Some tab => option_map outs2 (all_some (map (fun e => get_value e None) tab))
+  end.
